@@ -21,6 +21,7 @@ TRun == /\ l <= Len(Traces[tid].events) /\ l' = l + 1 /\ UNCHANGED tid
         /\ hist' = [hist EXCEPT ![1] = [k \in 1..Ev.n |-> <<1, "ok">>]]
         /\ outs' = [outs EXCEPT ![1] = [k \in 1..Ev.rows |-> "Ok"]]
         /\ how' = [how EXCEPT ![1] = "batch"] /\ UNCHANGED dead
+        /\ OneRowPerSample' /\ FaultFreeIsOk'      \* invariants as guards
 TraceSpec == TraceInit /\ [][TRun]_tvars
 Progress == LET f == TLCGet(1) IN IF f[tid] < l THEN TLCSet(1, [f EXCEPT ![tid] = l]) ELSE TRUE
 Accepted == LET f == TLCGet(1) IN
